@@ -745,8 +745,8 @@ impl ParserListener for Screen {
             .buffer
             .entry(self.cursor.y)
             .or_insert_with(HashMap::new);
-        for x in (self.cursor.x..self.columns + 1).rev() {
-            if x + count <= self.columns {
+        for x in (self.cursor.x..self.columns).rev() {
+            if x + count < self.columns {
                 let x_val = line.get(&x);
                 match x_val {
                     Some(val) => {
@@ -974,7 +974,7 @@ impl ParserListener for Screen {
         let default_char = self.default_char();
         let line = self.buffer.entry(self.cursor.y).or_insert(HashMap::new());
         for x in self.cursor.x..self.columns {
-            if x + count <= self.columns {
+            if x + count < self.columns {
                 if let Some(char_opts) = line.remove(&(x + count)) {
                     line.insert(x, char_opts);
                 } else {
